@@ -409,7 +409,17 @@ class RefDevice:
             m = self._extra(conn, kind, key)
             if m is not None:
                 msgs.append(m)
-        resp_pkts = [self.wrap(conn, f, key) for f in frames]
+        if d.get("mutate_inner") is not None and frames and key is not None:
+            # the carried V2 packet is altered, the V3 envelope around it is genuine (a fault inside the device,
+            # or an attacker who holds the session key)
+            inner = self._mutate(codec.v2_encode(self.device_id, frames[0], magic=self.resp_magic), d["mutate_inner"])
+            self.last_inner = inner
+            resp_pkts = [codec.v3_encode_encrypted(key, self._txc(conn), inner, codec.T_ENCRYPTED_RESPONSE,
+                                                   padbytes=None)]
+            resp_pkts += [self.wrap(conn, f, key) for f in frames[1:]]
+            self._fire("altered_v2_packet_in_genuine_v3_envelope")
+        else:
+            resp_pkts = [self.wrap(conn, f, key) for f in frames]
         if d.get("flood") is not None and key is not None:
             self._fire("flood:" + d["flood"]["kind"])
             resp_pkts = [self._flood_bytes(conn, d["flood"], key)] + (resp_pkts if d.get("then_honest") else [])
@@ -443,7 +453,7 @@ class RefDevice:
             # an altered copy of the response follows it (picked up by the next exchange's drain)
             msgs.append(self._mutate(resp_pkts[-1], d["post_mutated"]))
             conn.state["desync"] = True
-        honest = not any(d.get(k) for k in ("raw", "mutate", "byz", "app", "flood"))
+        honest = not any(d.get(k) for k in ("raw", "mutate", "mutate_inner", "byz", "app", "flood"))
         if not honest:
             conn.state["desync"] = True     # hostile bytes may have broken the stream framing
         base = len(conn.tx_stream)
